@@ -342,6 +342,9 @@ def oracle_c04(case, i, ep):
     return bad
 
 
+NEARBY = {"BIOMASA", "BIOMASADENSIFICADA", "RED1", "RED2", "EAMBIENTE", "TERMOSOLAR"}
+
+
 def oracle_c13(case, i, ep):
     """RER definition, range and nesting (k_exp = 0, regulatory factors)"""
     bad = []
@@ -363,12 +366,18 @@ def oracle_c13(case, i, ep):
         if rer < -tol or rer > 1 + tol:
             bad.append(("RER outside [0,1]", {"rer": core.fstr(rer)}))
         el = ep["balance_cr"].get("ELECTRICIDAD")
-        exports_el = bool(el and Fraction(el["exp"]["an"]) > 0)
-        d = {"rer": core.fstr(rer), "rer_nrb": core.fstr(nrb), "rer_onst": core.fstr(onst), "exports_electricity": exports_el}
+        exp_src = {j: Fraction(v) for j, v in (el["exp"].get("by_src_an", {}) if el else {}).items()}
+        exports_pv = exp_src.get("EL_INSITU", 0) > 0
+        exports_chp = exp_src.get("EL_COGEN", 0) > 0
+        far_fuel = sorted(cr for cr, b in ep["balance_cr"].items() if Fraction(b["used"]["cgnus_an"]) > 0 and cr not in NEARBY)
+        d = {"rer": core.fstr(rer), "rer_nrb": core.fstr(nrb), "rer_onst": core.fstr(onst), "exports_onsite_electricity": exports_pv,
+             "exports_cogenerated_electricity": exports_chp, "cogeneration_fuel_outside_the_nearby_perimeter": far_fuel}
         if nrb > rer + tol:
             bad.append(("RER_nrb > RER", d))
         if onst < -tol:
             bad.append(("RER_onst < 0", d))
         if onst > nrb + tol:
-            bad.append(("KNOWN:exported-electricity" if exports_el else "RER_onst > RER_nrb", d))
+            # two recorded mechanisms (known_findings.json); anything else is a new violation
+            bad.append(("KNOWN:exported-onsite-electricity" if exports_pv else
+                        "KNOWN:exported-cogeneration-non-nearby-fuel" if (exports_chp and far_fuel) else "RER_onst > RER_nrb", d))
     return bad
